@@ -20,10 +20,12 @@ func childrenOf(e ext, dh, dv int64) []ext {
 
 func init() {
 	op("mrgExt", func(a []string) string {
-		return setOrErr(integrate.MergeExtendedSpatialIds(split(a[0]), atoi(a[1]), atoi(a[2])))
+		l, err := integrate.MergeExtendedSpatialIds(split(a[0]), atoi(a[1]), atoi(a[2]))
+		return setOrErrZ(l, err, 0, 35, atoi(a[1]), atoi(a[2]))
 	})
 	op("mrgSp", func(a []string) string {
-		return setOrErr(integrate.MergeSpatialIds(split(a[0]), atoi(a[1])))
+		l, err := integrate.MergeSpatialIds(split(a[0]), atoi(a[1]))
+		return setOrErrZ(l, err, 0, 35, atoi(a[1]))
 	})
 
 	// a target voxel g at (H,V) with H,V ≤ 33; inputs: its complete / one-short / partial sets of descendants at mixed
